@@ -7,7 +7,7 @@ checks, na = [], []
 for pid in ids:
     try:
         spec = importlib.import_module("vlib.props." + pid)
-        if not os.path.exists("lean/SLV/Props/%s.lean" % pid):
+        if pid not in open("claimed.txt").read().split():
             raise ModuleNotFoundError
     except ModuleNotFoundError:
         na.append({"property_id": pid, "reason": "check not built yet (work in progress; see DESIGN.md §6 for the plan)"})
